@@ -119,7 +119,7 @@ end
 func init() {
 	register(&Prop{
 		ID:   "C17",
-		Rule: "request histories on pools of size (1,2),(1,3),(2,3),(2,4),(3,6): start request (healthy / rule error / panicking injected function / type fault outside the self-recovering constructs / missing name / store into a nil map / wrong key kind / out-of-range element store and read / a request with a nil data map (kind 11, fails on the missing names without parking) / a failing child of the conc block in which every request parks (kind 10) / a healthy request that injects its own function, map and slice under names and Go types of values the pool was constructed with; every request also binds a local and writes its own map and slice) through any of the 24 pool execute methods, release the k-th outstanding request; up to max+4 outstanding, every request parks inside its rule on a Hold gate keyed by its id; oracle after every step: the number of requests parked inside rules equals min(max, outstanding) within the bound (waiters proceed, nothing lost) and never exceeds max, every finished request returned its own id (two in-flight requests on one instance would overwrite each other's injected object), a request never fails because the pool is busy, and after the history max requests park simultaneously again. 8% of the cases (2% in the thorough tier) are hand-over storms instead: max-1 requests stay inside their rule, the last instance is passed along a chain of 100-800 (thorough 1500) requests, each issued a generated number of spin iterations after its predecessor is let go (at most four storms at a time across the shard processes); every next request must enter its rule within the hang bound after the previous one returned and must return its own id. 3% of the cases are hammers: 4-32 clients issue 100-600 (thorough 1500) short ungated requests each, at most max may be inside a rule at any time, every request returns its own id, and afterwards max requests must be inside their rule together. Non-trivial: at some point more than max requests are outstanding and a failing or panicking request finished before the final probe, or a storm of >= 300 hand-overs; distinct by case hash",
+		Rule: "request histories on pools of size (1,2),(1,3),(2,3),(2,4),(3,6): start request (healthy / rule error / panicking injected function / type fault outside the self-recovering constructs / missing name / store into a nil map / wrong key kind / out-of-range element store and read / a healthy request whose data map also holds a nil value and an empty key (kind 12) / a request with a nil data map (kind 11, fails on the missing names without parking) / a failing child of the conc block in which every request parks (kind 10) / a healthy request that injects its own function, map and slice under names and Go types of values the pool was constructed with; every request also binds a local and writes its own map and slice) through any of the 24 pool execute methods, release the k-th outstanding request; up to max+4 outstanding, every request parks inside its rule on a Hold gate keyed by its id; oracle after every step: the number of requests parked inside rules equals min(max, outstanding) within the bound (waiters proceed, nothing lost) and never exceeds max, every finished request returned its own id (two in-flight requests on one instance would overwrite each other's injected object), a request never fails because the pool is busy, and after the history max requests park simultaneously again. 8% of the cases (2% in the thorough tier) are hand-over storms instead: max-1 requests stay inside their rule, the last instance is passed along a chain of 100-800 (thorough 1500) requests, each issued a generated number of spin iterations after its predecessor is let go (at most four storms at a time across the shard processes); every next request must enter its rule within the hang bound after the previous one returned and must return its own id. 3% of the cases are hammers: 4-32 clients issue 100-600 (thorough 1500) short ungated requests each, at most max may be inside a rule at any time, every request returns its own id, and afterwards max requests must be inside their rule together. Non-trivial: at some point more than max requests are outstanding and a failing or panicking request finished before the final probe, or a storm of >= 300 hand-overs; distinct by case hash",
 		New:  func() interface{} { return &C17Case{} },
 		Gen: func(t *rapid.T) interface{} {
 			c := &C17Case{}
@@ -167,7 +167,7 @@ func init() {
 				}
 				f := int64(0)
 				if pct(t, fmt.Sprintf("faulty%d", i), 40) {
-					f = int64(uni(t, fmt.Sprintf("fault%d", i), 1, 11))
+					f = int64(uni(t, fmt.Sprintf("fault%d", i), 1, 12))
 				}
 				c.Ops = append(c.Ops, C17Op{Kind: "start", Fault: f, Method: uni(t, fmt.Sprintf("m%d", i), 0, 23)})
 				out++
@@ -227,7 +227,7 @@ func init() {
 						x.Violation("foreign-id", "step %d: request %d got %v from its rule", step, r.id, v)
 						return false
 					}
-					if r.kind != 0 && r.kind != 9 {
+					if r.kind != 0 && r.kind != 9 && r.kind != 12 {
 						faultDone = true
 					}
 					return true
@@ -236,7 +236,7 @@ func init() {
 					x.Violation("request-panic", "step %d: request %d (%s, fault kind %d) panicked: %s", step, r.id, r.call.Method, r.kind, truncate(r.res.Panic, 200))
 					return false
 				}
-				if r.kind == 0 || r.kind == 9 {
+				if r.kind == 0 || r.kind == 9 || r.kind == 12 {
 					if r.res.Err != nil {
 						x.Violation("healthy-request-failed", "step %d: healthy request %d (%s) failed: %s", step, r.id, r.call.Method, truncate(r.res.Err.Error(), 300))
 						return false
@@ -274,7 +274,7 @@ func init() {
 					startCleared[nextID] = cleared
 					call := fullCall(methods[op.Method%len(methods)], []string{"main", "aux"}, step)
 					fault := op.Fault
-					if (fault == 9 || fault == 11) && call.Method == "ExecuteRulesWithSpecifiedEM" {
+					if (fault == 9 || fault == 11 || fault == 12) && call.Method == "ExecuteRulesWithSpecifiedEM" {
 						fault = 0 // that method injects at most two values
 					}
 					h.start(nextID, fault, []string{"who"}, call)
